@@ -334,6 +334,7 @@ class C04(Prop):
                     if c["vendor"] == vendor and not c["auto"] and want in c["gen_features"] and "k1" not in c["gen_features"]:
                         break
                 yield c
+        yield from gen_csvdir.targeted_histories()
         # the LDR key repaired by 0a523e4 (all digits of the stem -> sample name, integer index): mixed zero padding,
         # digits in the sample name, the lines of two samples, one sample in two letter cases; Nu with mixed padding
         for vendor, names, feats in (
@@ -458,7 +459,7 @@ class C04(Prop):
         if "msg" in impl and impl["raises"] == model.get("raises"):
             impl = {"raises": impl["raises"]}
         impl, model, spec = blank(impl, und), blank(model, und), blank(spec, und)
-        rep = {**rep, "und": bool(und), "negzero": negzero, "option": option}
+        rep = {**rep, "und": bool(und), "und_set": und, "negzero": negzero, "option": option}
         return impl, model, spec, rep, data, params
 
     @staticmethod
@@ -564,6 +565,17 @@ class C04(Prop):
         content, shared, dirty, saved = {}, {}, set(), []
         impl, model, spec, feats = [], [], [], set(case.get("gen_features", [])) | {"history", "tz:" + case["tz"]}
         hyp, seen, calls, judged = True, [], [], 0
+        # the same history as calls of the Lean world model (PewModel.CsvDir.Call): paths 0 / 1, option objects by the
+        # order in which the caller obtained them
+        hcalls, optidx, pathidx, und_at, pos_of = [], {}, {"lines": 0, "b": 1}, {}, {}
+
+        def hold(o, call):
+            hcalls.append(call)
+            optidx[id(o)] = len(optidx)
+            keep.append(o)
+            return optidx[id(o)]
+
+        keep = []  # (the objects stay alive: id() must not be reused)
 
         def edit_option(o, dirc):
             """what a caller may do to an option object it holds; undone after the history (an object that the library
@@ -584,6 +596,7 @@ class C04(Prop):
             if hasattr(o, "regex"):
                 o.regex = re.compile(r"never-\d+\.csv")
             dirty.add(id(o))
+            hcalls.append({"c": "edit", "i": optidx[id(o)], "drop": els[-2:]})
 
         try:
             for i, st in enumerate(case["steps"]):
@@ -591,6 +604,7 @@ class C04(Prop):
                 if "dir" in st:
                     self.rewrite_dir(d, st["dir"], st.get("mtime", "natural"))
                     content[st["slot"]] = st["dir"]
+                    hcalls.append({"c": "write", "p": pathidx[st["slot"]], "entries": self.driver_entries(st["dir"]["entries"])})
                 dirc = content.get(st["slot"])
                 if dirc is None:  # (a shrunk case: the step that wrote this path is gone)
                     continue
@@ -605,15 +619,27 @@ class C04(Prop):
                         except Exception:
                             pass
                     feats.add("call:auto-nofull-unjudged")
+                    hcalls.append({"c": "auto", "p": pathidx[st["slot"]], "pi": pi})
                     continue
                 option = None
                 if call == "shared":
                     if vendor not in shared or id(shared[vendor]) in dirty:
                         shared[vendor] = OPTION_CLASS(pcsv, vendor)()
+                        hold(shared[vendor], {"c": "new", "vendor": vendor})
                     option = shared[vendor]
                 elif call == "fresh":
                     option = OPTION_CLASS(pcsv, vendor)()
+                    hold(option, {"c": "new", "vendor": vendor})
                 im, mo, sp, rep, data, params = self.import_once(pcsv, ctx, d, dirc, call, option, pi, case["tz"])
+                if call == "detected" and rep["option"] is not None:
+                    hold(rep["option"], {"c": "detect", "p": pathidx[st["slot"]]})
+                if call == "auto":
+                    hcalls.append({"c": "auto", "p": pathidx[st["slot"]], "pi": pi})
+                elif id(rep["option"]) in optidx:
+                    hcalls.append({"c": "with", "i": optidx[id(rep["option"])], "p": pathidx[st["slot"]], "pi": pi})
+                else:  # option_for_path itself raised: there is no object to import with
+                    hcalls.append({"c": "auto", "p": pathidx[st["slot"]], "pi": pi})
+                pos_of[len(impl)] = (len(hcalls) - 1, rep["und_set"], mo.get("image", {}).get("bits") if isinstance(mo, dict) else None)
                 tag = {"step": i, "path": st["slot"], "call": call}
                 if self.out_of_domain(rep) or nlines == 0:
                     im = mo = sp = {"not-judged": True}
@@ -653,6 +679,8 @@ class C04(Prop):
                     elif ed == "library-option" and not skip_library_edits:
                         with substitutions(d, [e["name"] for e in dirc["entries"]], pi, case["tz"]):
                             o = rep["option"] if call == "detected" else pcsv.option_for_path(d)
+                        if id(o) not in optidx:
+                            hold(o, {"c": "detect", "p": pathidx[st["slot"]]})
                         edit_option(o, dirc)
                         feats.add("edit:library-option")
         finally:
@@ -664,6 +692,19 @@ class C04(Prop):
                         v.clear()
                         v.update(copy)
                     setattr(o, k, v)
+        # the model side of a history: the Lean world model run on the whole history (`trace`), not call by call
+        if hcalls:
+            results = ctx.driver.call("c04.history", calls=hcalls)["results"]
+            for k, (pos, und, bits) in pos_of.items():
+                if model[k].get("not-judged"):
+                    continue
+                r = results[pos]
+                if r is None:
+                    raise InternalError(f"history model: call {pos} is no import")
+                m, _ = driver_result(r)
+                if bits is not None and "image" in m:
+                    m["image"]["bits"] = bits
+                model[k] = {**{t: model[k][t] for t in ("step", "path", "call")}, **blank(m, und)}
         feats.add(f"history-judged:{min(judged, 4)}")
         out = outcome({"steps": impl}, {"steps": model}, {"steps": spec}, undetermined=judged == 0, hyp=hyp,
                       features=feats if judged else [])
